@@ -195,6 +195,8 @@ def sym_round(x, ndigits=None):
         if f is None:
             f = _round[ndigits] = z3.Function(f"sx_round_{ndigits}".replace("-", "m"), R, R)
         half = z3.RealVal(f"1/{2 * 10 ** ndigits}" if ndigits >= 0 else f"{10 ** (-ndigits)}/2")
+    if z3.is_app(x.t) and x.t.num_args() == 1 and x.t.decl().eq(f):
+        return x  # R(R(x)) = R(x): already rounded to this precision (contract)
     t = z3.simplify(x.t)
     if z3.is_rational_value(t) or z3.is_int_value(t):
         fr = C.frac_of_model_value(t)
